@@ -29,8 +29,121 @@ impl<'a> Machine<'a> {
             .ok_or(RErr::Inexact(format!("label {} not in this procedure", l)))
     }
 
+    /// What a DIM declares is known before it executes: the type of the name, and whether it is shared.
+    fn declare(&mut self, fx: usize, dv: &DimVar, shared: bool) -> (String, DeclTy) {
+        let (bare, suffix) = split_suffix(&dv.name);
+        let decl: DeclTy = match (&dv.ty, suffix) {
+            (Some(t), _) => t.clone(),
+            (None, Some(t)) => DeclTy::Scalar(t),
+            (None, None) => DeclTy::Scalar(self.default_ty(&bare)),
+        };
+        let key = if dv.ty.is_some() {
+            self.frames[fx].decl.insert(bare.clone(), decl.clone());
+            bare.clone()
+        } else {
+            match &decl {
+                DeclTy::Scalar(t) => format!("{}{}", bare, t.suffix()),
+                _ => bare.clone(),
+            }
+        };
+        if shared {
+            self.shared.insert(bare.clone());
+            self.shared.insert(key.clone());
+        }
+        (key, decl)
+    }
+
+    /// Records and arrays with literal bounds exist from the start of the module or subprogram that declares
+    /// them, whether or not control reaches their DIM; other arrays exist once their DIM / REDIM has executed,
+    /// and using them before that is Subscript out of range.
+    fn predeclare(&mut self, px: usize, fx: usize) -> R<()> {
+        fn literal_bound(e: &Expr) -> Option<i64> {
+            match e {
+                Expr::Num(t) => t.parse::<i64>().ok(),
+                Expr::Neg(x) => literal_bound(x).map(|v| -v),
+                Expr::Paren(x) => literal_bound(x),
+                _ => None,
+            }
+        }
+        let body: &'a [Stmt] = if px == 0 {
+            &self.prog.main
+        } else {
+            match self.procs[px].def {
+                Some(d) => &d.body,
+                None => return Ok(()),
+            }
+        };
+        let mut dims: Vec<&'a Stmt> = vec![];
+        crate::gast::walk_stmts(body, &mut |s| {
+            if matches!(s.k, K::Dim { .. }) {
+                dims.push(s);
+            }
+        });
+        for s in dims {
+            if let K::Dim { shared, vars, redim } = &s.k {
+                for dv in vars {
+                    let is_static = !*redim
+                        && if dv.dims.is_empty() {
+                            matches!(dv.ty, Some(DeclTy::Rec(_)))
+                        } else {
+                            dv.dims.iter().all(|(lo, hi)| {
+                                let l = match lo {
+                                    Some(e) => literal_bound(e),
+                                    None => Some(0),
+                                };
+                                matches!((l, literal_bound(hi)), (Some(l), Some(h)) if l <= h && l >= -32768 && h <= 32767)
+                            })
+                        };
+                    if *redim {
+                        let (bare, _) = split_suffix(&dv.name);
+                        for (k, _) in self.frames[fx].decl.clone() {
+                            if k == bare {
+                                self.frames[fx].pending_arrays.insert(k);
+                            }
+                        }
+                        let key = match split_suffix(&dv.name).1 {
+                            Some(t) => format!("{}{}", bare, t.suffix()),
+                            None if dv.ty.is_some() => bare.clone(),
+                            None => format!("{}{}", bare, self.default_ty(&bare).suffix()),
+                        };
+                        self.frames[fx].pending_arrays.insert(key);
+                        continue;
+                    }
+                    let (key, decl) = self.declare(fx, dv, *shared);
+                    if !is_static {
+                        if !dv.dims.is_empty() {
+                            self.frames[fx].pending_arrays.insert(key);
+                        }
+                        continue;
+                    }
+                    if self.frames[fx].vars.contains_key(&key) {
+                        continue;
+                    }
+                    let elem = self.new_value(&decl)?;
+                    let v = if dv.dims.is_empty() {
+                        elem
+                    } else {
+                        let dims = dv
+                            .dims
+                            .iter()
+                            .map(|(lo, hi)| (lo.as_ref().and_then(literal_bound).unwrap_or(0) as i32, literal_bound(hi).unwrap_or(0) as i32))
+                            .collect();
+                        V::A(Arr::new(dims, elem))
+                    };
+                    self.frames[fx].vars.insert(key, v);
+                }
+            }
+        }
+        Ok(())
+    }
+
     /// Runs procedure `px` in frame `fx` until it ends.
     fn run(&mut self, px: usize, fx: usize) -> Result<(), Stop> {
+        match self.predeclare(px, fx) {
+            Ok(()) => {}
+            Err(RErr::Inexact(m)) => return Err(Stop::Undecided(m)),
+            Err(RErr::Code(_)) => return Err(Stop::Undecided("a declaration failed before the program started".into())),
+        }
         let mut cur_px = px;
         let mut cur_fx = fx;
         let mut pc = 0usize;
@@ -353,25 +466,7 @@ impl<'a> Machine<'a> {
             }
             K::Dim { shared, vars, redim } => {
                 for dv in vars {
-                    let (bare, suffix) = split_suffix(&dv.name);
-                    let decl: DeclTy = match (&dv.ty, suffix) {
-                        (Some(t), _) => t.clone(),
-                        (None, Some(t)) => DeclTy::Scalar(t),
-                        (None, None) => DeclTy::Scalar(self.default_ty(&bare)),
-                    };
-                    let key = if dv.ty.is_some() {
-                        self.frames[fx].decl.insert(bare.clone(), decl.clone());
-                        bare.clone()
-                    } else {
-                        match &decl {
-                            DeclTy::Scalar(t) => format!("{}{}", bare, t.suffix()),
-                            _ => bare.clone(),
-                        }
-                    };
-                    if *shared {
-                        self.shared.insert(bare.clone());
-                        self.shared.insert(key.clone());
-                    }
+                    let (key, decl) = self.declare(fx, dv, *shared);
                     // STATIC subprograms keep what is already there
                     if self.frames[fx].vars.contains_key(&key) && !*redim && fx != 0 {
                         let px = self.frames[fx].proc_ix;
